@@ -421,8 +421,7 @@ def duckdb_writer_rule(ctx):
 
 # ------------------------------------------------------------------------------------------------ run / replay
 def suite_cases(ctx, n):
-    paths = G.corpus_scripts()
-    ctx.rng.shuffle(paths)
+    paths = G.stratified_corpus()       # fixed order (seed-independent)
     out = []
     for p in paths:
         c = G.suite_case(p)
